@@ -3,3 +3,11 @@ import LdkModel.Props.C19
 #print axioms Ldk.C19.persister_recovers
 #print axioms Ldk.C19.cleanup_never_needed
 #print axioms Ldk.C19.window_bound
+#print axioms Ldk.C19.fs_refines_map
+#print axioms Ldk.C19.fs_store_is_map
+#print axioms Ldk.C19.crash_never_tears
+#print axioms Ldk.C19.async_last_issued_wins
+#print axioms Ldk.C19.monitor_isolation
+#print axioms Ldk.C19.archive_correct
+#print axioms Ldk.C19.archive_holds_memory_monitor
+#print axioms Ldk.C19.read_all_is_map_of_recover
